@@ -253,6 +253,12 @@ def shared_state_obligations(ctx, rep, rule, eff, funcs, sequential=False):
                                      key=f"{rule}|{f.qualname}|attr|{norm(t)}")
 
 
+def _server_helpers(m):
+    """Inline policy: helpers of the server module that a worker entry point is built from."""
+    noin = ("wrap_socket", "finish_request", "handle_error", "shutdown_request", "close_request", "server_bind", "__init__")
+    return lambda fn, t, d: d < 3 and t.bound_cls is not None and fn.module is m.module and fn.name not in noin
+
+
 def check(ctx, rep):
     prog = ctx.prog
     eff = Effects(prog, ctx.resolver)
@@ -383,7 +389,7 @@ def check(ctx, rep):
                 if isinstance(call.func, ast.Attribute) and dotted(call.func.value) == "self":
                     return ["OSError"]
                 return []
-            w = Walker(prog, ctx.resolver, raise_points=rp)
+            w = Walker(prog, ctx.resolver, raise_points=rp, inline=_server_helpers(m))
             problems = set()
             n_child = n_parent = 0
             for p in w.run(m, S):
@@ -424,7 +430,7 @@ def check(ctx, rep):
                 if isinstance(call.func, ast.Attribute) and dotted(call.func.value) == "self" and call.func.attr not in ("handle_error", "shutdown_request"):
                     return ["OSError", "ValueError"]
                 return []
-            w = Walker(prog, ctx.resolver, raise_points=rp2)
+            w = Walker(prog, ctx.resolver, raise_points=rp2, inline=_server_helpers(m))
             problems = set()
             for p in w.run(m, S):
                 names = [norm(e.node.func) for e in p.calls()]
